@@ -33,3 +33,27 @@ package localfs
 //@ lemma encodeLikelyInjective
 //@   lemma[C20] @injective forall(d1, uint64, forall(i1, uint64, forall(d2, uint64, forall(i2, uint64, likelyOK(d1, i1) && likelyOK(d2, i2) && likelyEnc(d1, i1) == likelyEnc(d2, i2) ==> d1 == d2 && i1 == i2))))
 //@   lemma[C20] @bit63-clear forall(d, uint64, forall(i, uint64, likelyOK(d, i) ==> likelyEnc(d, i) < (1<<63)))
+
+// ---- C20: localToQid -- every (device, inode) pair gets one stable path ---------
+//
+// Pairs outside the compact encoding are kept in the package-level sync.Map
+// `qids` (ghost view smhas/smget, keys compared with Go ==) and numbered from
+// the atomic counter nextQid (au), which init() sets to 1<<63.
+// Invariant of the table: keys are devino values, values are uint64 paths with
+// bit 63 set that the counter has already passed, and no two keys share one.
+//@ define Iqids() bool = forall(k, any, smhas(qids, k) ==> typeis(k, devino) && typeis(smget(qids, k), uint64) && unbox(smget(qids, k), uint64) > (1<<63) && unbox(smget(qids, k), uint64) <= au(nextQid)) && forall(k1, any, forall(k2, any, smhas(qids, k1) && smhas(qids, k2) && k1 != k2 ==> smget(qids, k1) != smget(qids, k2)))
+//@ define keyOf(dev uint64, ino uint64) any = box(devino{dev: dev, ino: ino})
+//
+//@ func localToQid
+//@   at FileInfo.Sys assume typeis(ret0, *syscall.Stat_t) && unbox(ret0, *syscall.Stat_t) != nil
+//@   requires[C20] Iqids()
+//@   requires[C20] @counter-initialised-and-not-exhausted au(nextQid) >= (1<<63) && au(nextQid) < 18446744073709551615
+//@   modifies $sm.G.localfs.qids.dom, $sm.G.localfs.qids.val, $au.G.localfs.nextQid
+//@   ensures[C20] Iqids()
+//@   ensures[C20] @no-error result1 == nil
+//@   ensures[C20] @likely-pairs-use-the-compact-encoding likelyOK(uint64(stat.Dev), stat.Ino) ==> result0 == likelyEnc(uint64(stat.Dev), stat.Ino)
+//@   ensures[C20] @stable-for-known-pairs !likelyOK(uint64(stat.Dev), stat.Ino) && old(smhas(qids, keyOf(uint64(stat.Dev), stat.Ino))) ==> result0 == unbox(old(smget(qids, keyOf(uint64(stat.Dev), stat.Ino))), uint64)
+//@   ensures[C20] @recorded !likelyOK(uint64(stat.Dev), stat.Ino) ==> smhas(qids, keyOf(uint64(stat.Dev), stat.Ino)) && typeis(smget(qids, keyOf(uint64(stat.Dev), stat.Ino)), uint64) && unbox(smget(qids, keyOf(uint64(stat.Dev), stat.Ino)), uint64) == result0
+//@   ensures[C20] @fallback-has-bit-63 !likelyOK(uint64(stat.Dev), stat.Ino) ==> result0 > (1<<63)
+//@   ensures[C20] @other-pairs-untouched forall(k, any, k != keyOf(uint64(stat.Dev), stat.Ino) ==> smhas(qids, k) == old(smhas(qids, k)) && smget(qids, k) == old(smget(qids, k)))
+//@   maypanic
